@@ -4,6 +4,7 @@ package props
 import (
 	"hash/crc32"
 	"math"
+	"strings"
 	"sync"
 
 	"verifmon/core"
@@ -291,4 +292,27 @@ func hashCollisionPairs() [][2]string {
 		}
 	})
 	return collisionPairs
+}
+
+// veryLongLen draws a list length beyond 2^15: at and just above 2^15, 2^16 and 2^17 (not multiples of small worker
+// counts), where implementations may switch to parallel or block-wise processing.
+func veryLongLen(r *core.Rng) int {
+	return []int{32768, 32771, 32773, 40001, 65536, 65539, 66361, 131075}[r.Intn(8)]
+}
+
+// respell rewrites the numerals of a valid ID in a non-canonical but parser-accepted way ("+5", "05", "-0").
+func respell(r *core.Rng, id string) string {
+	f := strings.Split(id, "/")
+	i := r.Intn(len(f))
+	switch {
+	case f[i] == "0" && r.Bool():
+		f[i] = "-0"
+	case !strings.HasPrefix(f[i], "-") && r.Bool():
+		f[i] = "+" + f[i]
+	case strings.HasPrefix(f[i], "-"):
+		f[i] = "-0" + f[i][1:]
+	default:
+		f[i] = "00" + f[i]
+	}
+	return strings.Join(f, "/")
 }
